@@ -7,9 +7,10 @@ oracle is refmodel.Ref evaluated on the decoded instruction list.
 from __future__ import annotations
 
 import itertools
+import os
 
 from mc import refmodel as rm
-from mc.common import JasmRaised, fmt_listing, flags_config, make_rule_doc, record_offsets, locate_matches
+from mc.common import JasmRaised, fmt_line, fmt_listing, flags_config, make_rule_doc, record_offsets, locate_matches
 
 # addresses: distinct, increasing, lower-case hex, lengths 1..8, every hex digit used, one of them
 # ("add") spells a mnemonic name used in rules
@@ -264,3 +265,101 @@ def replay_case(case, h, want=("verdict",)):
 def std_shards(tier, quick=64, thorough=256):
     n = quick if tier == "quick" else thorough
     return [{"lo": i, "n": n} for i in range(n)]
+
+
+# ----------------------------------------------------------------------------- long-listing family (shared)
+
+BOUNDARIES = (4096, 8192, 32768, 65536)
+
+
+def long_positions(n, wlen, boundaries=BOUNDARIES):
+    """Start positions for a window of wlen instructions in a listing of n: start, end, and every way of touching /
+    straddling each power-of-two boundary below n."""
+    pos = {0, n - wlen}
+    for b in boundaries:
+        if b + wlen < n:
+            for p in range(b - wlen, b + 1):
+                pos.add(p)
+    return sorted(p for p in pos if 0 <= p <= n - wlen)
+
+
+def long_listing_text(n, window, pos, filler=("nop", []), base=0x400000, step=3):
+    """n instructions: filler everywhere except `window` (list of (mnemonic, operands)) at instruction index pos."""
+    lines = ["", "x:     file format elf64-x86-64", "", "", "Disassembly of section .text:", "", f"{base:016x} <f>:"]
+    fl = None
+    for i in range(n):
+        if pos <= i < pos + len(window):
+            m, o = window[i - pos]
+            lines.append(fmt_line(f"{base + step * i:x}", m, o))
+        else:
+            if fl is None:
+                fl = fmt_line("@@", filler[0], filler[1])
+            lines.append(fl.replace("@@", f"{base + step * i:x}", 1))
+    return "\n".join(lines) + "\n"
+
+
+def run_long_family(h, res, known, shard, cases, ns, *, prop, filler=("nop", []), extra_check=None):
+    """cases: list of (pattern, window) where the pattern matches the window exactly once and nothing made of filler
+    (the caller's obligation; asserted with the reference on a small listing).  For every n in ns and every boundary
+    position: all-matches must be exactly [address of the window], first-match the same, bool True; and with the window
+    removed (pure filler) the rule must not be found."""
+    from mc.common import make_rule_doc
+    jobs = [(ci, n) for ci in range(len(cases)) for n in ns]
+    for ji in range(shard["lo"], len(jobs), shard["n"]):
+        ci, n = jobs[ji]
+        pattern, window = cases[ci][:2]
+        positive = cases[ci][2] if len(cases[ci]) > 2 else True     # False: a near-miss window the rule must NOT match anywhere
+        small = [norm_inst(str(k), m, o) for k, (m, o) in enumerate([filler] * 2 + list(window) + [filler] * 2)]
+        rspans = rm.Ref().spans(pattern, small)
+        if positive and not (rspans and min(rspans)[0] == 2 and all(i >= 2 and j <= 2 + len(window) for i, j in rspans)):
+            from mc.common import HarnessError
+            raise HarnessError(f"long-family case {pattern} does not match (only) inside its window: {rspans}")
+        if not positive and rspans:
+            from mc.common import HarnessError
+            raise HarnessError(f"long-family negative case {pattern} matches: {rspans}")
+        want_span = max(j for i, j in rspans if i == 2) - 2 if positive else 0   # records covered by the greedy leftmost match
+        mop = h.mop(make_rule_doc(pattern))
+        for pos in long_positions(n, len(window)) + [None]:
+            text = long_listing_text(n, window if pos is not None else [], pos if pos is not None else 0, filler)
+            path = h.write(f"longfam_{os.getpid()}.s", text)
+            res.evaluations += 1
+            res.nontrivial += 1
+            want = [f"{0x400000 + 3 * pos:x}"] if (pos is not None and positive) else []
+            try:
+                got_all = h.match(mop, path, mode="all", only_addr=True)
+                got_first = h.match(mop, path, mode="first", only_addr=True)
+                got_bool = h.match(mop, path, ret="bool", mode="first")
+                problems = []
+                if got_all[:1] != want or (not want and got_all):
+                    problems.append(("long-all", want, got_all[:5]))
+                if got_first != want:
+                    problems.append(("long-first", want, got_first[:5]))
+                if got_bool != bool(want):
+                    problems.append(("long-bool", bool(want), got_bool))
+                if want:
+                    t_first, t_all = h.match(mop, path, mode="first"), h.match(mop, path, mode="all")
+                    if t_first != t_all[:1]:
+                        problems.append(("long-first-text", [t[:160] for t in t_all[:1]], [t[:160] for t in t_first]))
+                if extra_check:
+                    problems += extra_check(h, mop, path, n, pos, window)
+            except JasmRaised as ex:
+                problems = [("raises", "a result", str(ex))]
+            for clause, exp, obs in problems:
+                res.fail({"clause": clause, "family": "longlisting", "rule": make_rule_doc(pattern), "n_instructions": n, "window_at": pos, "positive": positive,
+                          "window": [[m, list(o)] for m, o in window], "expected": exp, "observed": obs, "size": n}, known)
+
+
+def replay_long_case(case, h, filler=("nop", [])):
+    from mc.common import make_rule_doc
+    n, pos = case["n_instructions"], case["window_at"]
+    window = [(m, list(o)) for m, o in case["window"]]
+    text = long_listing_text(n, window if pos is not None else [], pos if pos is not None else 0, filler)
+    path = h.write("longfam_replay.s", text)
+    mop = h.mop(case["rule"])
+    want = [f"{0x400000 + 3 * pos:x}"] if (pos is not None and case.get("positive", True)) else []
+    try:
+        a, f, b = h.match(mop, path, mode="all", only_addr=True), h.match(mop, path, mode="first", only_addr=True), h.match(mop, path, ret="bool", mode="first")
+        tf, ta = h.match(mop, path, mode="first"), h.match(mop, path, mode="all")
+    except JasmRaised as ex:
+        return True, str(ex)
+    return (a[:1], f, b) != (want, want, bool(want)) or tf != ta[:1], f"all={a[:5]} first={f[:5]} bool={b} expected {want}; first text == all[0]: {tf == ta[:1]}"
